@@ -194,3 +194,14 @@ MODULES += [
      "imports": ["GoldilocksVerif.Isa.X86", "GoldilocksVerif.Model.Region"],
      "roots": [("MerklehashGoldilocks", "getTreeNumElements")]},
 ]
+
+# Goldilocks::parSetZero (goldilocks_base_field.cpp): translated in heap mode like its sibling `parcpy` (which NttGen contains as
+# a callee of NTT_iters), so that the chunked `memset` loop of the CURRENT source is bridged to the hand model Model/ParCopy.lean
+# (Lemmas/BridgeParcpyZero.lean; `C17_generated_parSetZero`, `C12_generated_parSetZero_any_order`).  Own module: Gen/NttGen.lean
+# stays as it is.  The heap mode wants a class for `this`; parSetZero is static and uses none of its members.
+MODULES += [
+    {"name": "ParZeroGen", "ns": "Gen.ParZeroGen", "ext": True, "heap": "NTT_Goldilocks", "dispatch": False,
+     "imports": ["GoldilocksVerif.Isa.X86", "GoldilocksVerif.Model.Region", TRRT, "GoldilocksVerif.Model.TrHeap",
+                 "GoldilocksVerif.Gen.Scalar"],
+     "roots": [("Goldilocks", "parSetZero")]},
+]
